@@ -16,10 +16,13 @@ from lib.core import hexs, unhex
 ID = "C04"
 PROPS_MODULE = "AslProps.C04"
 DRIVER = "c04"
+HARNESS_FLAGS = ("-fsanitize=signed-integer-overflow",)   # inline Var.h arithmetic (removeAt(i, n): i + n) is compiled into the harness
 SHRINK_KEEP_FIRST = 1          # every history starts with `reset` (tells the stateful python oracle that a new case begins)
 NS = 8
 RULE = ("cases = histories of 12..300 statements over 8 root Vars driven by a python shadow simulation (typed and Var-to-Var assignment "
         "incl. own elements/properties and ancestors, auto-creating paths, <<, resize, removeAt, remove, clear, extend, clone, copy, drop, "
+        "p = *p + off on the Var's own string, removeAt counts up to INT_MAX, string keys applied to arrays, ULong literals up to 2^64, "
+        "Var(Type) for every type, every Var constructed in 0xAB-poisoned storage, "
         "constructors incl. Var(long/unsigned long), Array<T>/initializer_list<T>/Dic<T>/Var::array({..}); source reference resolved before "
         "an auto-creating target in the same container) interleaved with queries (dump, ==, toString, conversions, is/has/contains/length, rc), plus literal sweeps over "
         "every string length 0..20/31/32/100 and numeric boundary, the INT/NUMBER/FLOAT x STRING/SSTRING equality lattice, FLOAT (C++ float) "
@@ -183,6 +186,27 @@ def path_str(root, steps):
     return "/".join([str(root)] + [("i%d" % s[1]) if s[0] == "i" else "k" + hexs(s[1]) for s in steps])
 
 
+def key_index(k):
+    """String::operator int() (myatoi): optional sign, digits up to the first other byte, modulo 2^32, as a 32-bit int"""
+    i, neg = 0, False
+    if k[:1] == b"-":
+        neg, i = True, 1
+    elif k[:1] == b"+":
+        i = 1
+    y = 0
+    while i < len(k) and 48 <= k[i] <= 57:
+        y = (10 * y + k[i] - 48) % 2 ** 32
+        i += 1
+    u = (-y) % 2 ** 32 if neg else y
+    return u if u < 2 ** 31 else u - 2 ** 32
+
+
+def type_value(ty):
+    """Var(Var::Type): numbers and booleans start at zero / false (11663a3)"""
+    return {0: None, 1: "Z", 2: ("d",) + norm_dy(0, 0), 3: ("b", False), 4: ("i", 0), 6: ("f",) + norm_dy(0, 0),
+            5: ("s", b""), 8: ("s", b""), 9: Arr(), 10: Obj()}[ty]
+
+
 def parse_lit(ts):
     k = ts[0]
     if k == "i" and len(ts) == 2:
@@ -198,6 +222,8 @@ def parse_lit(ts):
     if k == "UL" and len(ts) == 2:
         x = int(ts[1])
         return ("i", x) if x < 2 ** 31 else ("d", x, 0)
+    if k == "Q" and len(ts) == 2:          # ULong: always NUMBER, (double)x (c047585 for the assignment)
+        return ("d",) + norm_dy(int(float(int(ts[1]))), 0)
     if k in ("d", "f") and len(ts) == 3:
         return (k,) + norm_dy(int(ts[1]), int(ts[2]))
     if k == "b" and len(ts) == 2:
@@ -299,6 +325,13 @@ class Sim:
 
     def step_mut(self, loc, s, guard, src=None):
         v = self.read(loc)
+        if s[0] == "k" and isinstance(v, Arr):
+            # operator[](const String&) on an ARRAY forwards to operator[]((int)key) (7407dbc)
+            j = key_index(s[1])
+            if j < 0:
+                raise Skip("badarg")
+            self.count("string key applied to an array")
+            s = ("i", j)
         if guard and self.invalidates(v, s, src):
             raise Skip("skip-source-moved")
         if s[0] == "i":
@@ -462,16 +495,23 @@ class Sim:
         if n is not None:
             t = int(n)      # truncation toward zero
             si = str(t) if -2 ** 31 <= t < 2 ** 31 else "u"
+            sl = str(t) if -2 ** 63 <= t < 2 ** 63 else "u"
+            # ULong (c047585): directly from 2^63 on, through Long (modulo 2^64) below
+            sq = str(t % 2 ** 64) if -2 ** 63 <= t < 2 ** 64 else "u"
+            if v[0] == "i":
+                sq = str(t % 2 ** 64)
             sd = dy_of_float(float(n))
         elif isinstance(v, tuple) and v[0] == "s":
             d = simple_dec(v[1])
             si = "u" if d is None else str(d)
+            sl = si
+            sq = "u" if d is None else str(d % 2 ** 64)
             sd = "u" if d is None else dy_of_float(float(d))
         elif v == "Z":
-            si, sd = "0", "nan"
+            si, sl, sq, sd = "0", "0", "0", "nan"
         else:
-            si, sd = "0", "0/0"
-        return "i=%s d=%s b=%s s=%s" % (si, sd, "1" if self.to_bool(v) else "0", hexs(self.sconv(v)))
+            si, sl, sq, sd = "0", "0", "0", "0/0"
+        return "i=%s L=%s Q=%s d=%s b=%s s=%s" % (si, sl, sq, sd, "1" if self.to_bool(v) else "0", hexs(self.sconv(v)))
 
     def replace_slot(self, k, v):
         self.slots[k] = v
@@ -500,9 +540,7 @@ class Sim:
             if t[2] == "t":
                 ty = TYPES[t[3]]
                 loc = self.resolve_mut(p, guard)
-                if ty in (2, 3, 4, 6):
-                    return "badarg"
-                self.write(loc, {0: None, 1: "Z", 5: ("s", b""), 8: ("s", b""), 9: Arr(), 10: Obj()}[ty])
+                self.write(loc, type_value(ty))
                 return "ok"
             v = parse_lit(t[2:])
             loc = self.resolve_mut(p, guard)
@@ -510,6 +548,16 @@ class Sim:
             if is_cont(old) and self.rc(old) > 1:
                 self.count("type-changing assignment to a Var whose container is shared")
             self.write(loc, v)
+            return "ok"
+        if op == "setsub":
+            p = parse_path(t[1])
+            off = int(t[2])
+            loc = self.resolve_mut(p, guard)
+            v = self.read(loc)
+            if not (isinstance(v, tuple) and v[0] == "s") or off > len(v[1]):
+                return "badarg"
+            self.count("assignment of a piece of the Var's own string")
+            self.write(loc, ("s", v[1][off:]))
             return "ok"
         if op == "setv":
             p, q = parse_path(t[1]), parse_path(t[2])
@@ -639,9 +687,7 @@ class Sim:
             k = int(t[1])
             if t[2] == "t":
                 ty = TYPES[t[3]]
-                if ty in (2, 3, 4, 6):
-                    return "badarg"
-                self.slots[k] = {0: None, 1: "Z", 5: ("s", b""), 8: ("s", b""), 9: Arr(), 10: Obj()}[ty]
+                self.slots[k] = type_value(ty)
                 return "ok"
             if t[2] in ("arr", "list"):
                 kind = t[3]
@@ -769,7 +815,7 @@ def reference(line):
 
 KEYS = [b"a", b"b", b"c", b"key", b"k2", b"0", b"1", b"2", b"", b"longer-key-name", b"zz", b"A", b"x/y", b"\xc3\xa9"]
 INTS = [0, 1, -1, 2, 3, 7, 10, 100, 255, -128, 65536, 2 ** 31 - 1, -2 ** 31, 16777216, 16777217, 123456789]
-TYPE_NAMES = ["NONE", "NUL", "ARRAY", "OBJ", "STRING", "SSTRING"]
+TYPE_NAMES = ["NONE", "NUL", "ARRAY", "OBJ", "STRING", "SSTRING", "INT", "NUMBER", "FLOAT", "BOOL"]
 # 32-bit ints that a float cannot hold, and their neighbours: 2^24 .. 2^31
 BIG_INTS = sorted(set(
     [s_ * (2 ** k + d) for k in range(24, 31) for d in (-3, -2, -1, 0, 1, 2, 3, 5) for s_ in (1, -1)] +
@@ -836,7 +882,20 @@ def rfloat(rng):
     return (rng.randrange(-2000, 2000), rng.randrange(0, 5))
 
 
-def rlit(rng, kinds="iuldfbscLU"):
+def rulong(rng):
+    """ULong values: small, around 2^53, and m * 2^e up to 2^64 (a double holds them exactly), plus a few that (double) rounds"""
+    r = rng.random()
+    if r < 0.25:
+        return rng.choice([0, 1, 7, 2 ** 31, 2 ** 32 + 5, 2 ** 53 - 1, 2 ** 53, 2 ** 53 + 2])
+    if r < 0.55:
+        return rng.choice([2 ** 63 - 1024, 2 ** 63, 2 ** 63 + 2048, 9223372036854777856, 2 ** 64 - 2048, 2 ** 64 - 4096, 3 * 2 ** 62, 2 ** 63 + 2 ** 40])
+    if r < 0.8:
+        e = rng.randrange(0, 12)
+        return rng.randrange(2 ** 52, 2 ** 53) << e
+    return rng.choice([2 ** 64 - 1, 2 ** 63 + 1, 2 ** 63 - 1, 2 ** 64 - 1025, 2 ** 53 + 1, 2 ** 53 + 3, rng.randrange(2 ** 53, 2 ** 64)])
+
+
+def rlit(rng, kinds="iuldfbscLUQ"):
     k = rng.choice(kinds)
     if k == "i":
         r = rng.random()
@@ -851,6 +910,8 @@ def rlit(rng, kinds="iuldfbscLU"):
     if k == "U":
         return "UL %d" % rng.choice([0, 7, 2 ** 31 - 1, 2 ** 31, 2 ** 32 - 1, 2 ** 32, 4294967303, 2 ** 53 - 1, rng.randrange(0, 2 ** 53),
                                      rng.randrange(0, 2 ** 34)])
+    if k == "Q":
+        return "Q %d" % rulong(rng)
     if k == "d":
         return "d %d %d" % rdouble(rng)
     if k == "f":
@@ -910,7 +971,14 @@ class Gen:
                 break
             if isinstance(v, Arr):
                 L = len(v.items)
-                steps.append(("i", rng.choice([L, L, L + 1, L + 2, v.cap, v.cap + 1, 2 * v.cap, rng.randrange(0, L + 1)])))
+                i = rng.choice([L, L, L + 1, L + 2, v.cap, v.cap + 1, 2 * v.cap, rng.randrange(0, L + 1)])
+                if rng.random() < 0.12:
+                    # v["7"]: operator[](const String&) on an array; the key goes through String::operator int()
+                    d = b"%d" % i
+                    steps.append(("k", rng.choice([d, d, d, b"+" + d, b"00" + d, d + b"x", d + b".9", b"name", b"", b"-1", b"-0", b" 1",
+                                                   b"4294967296", b"4294967297", b"-4294967295"])))
+                else:
+                    steps.append(("i", i))
             elif isinstance(v, Obj):
                 steps.append(("k", rng.choice(KEYS)) if rng.random() < 0.85 else ("i", rng.randrange(0, 4)))
             elif v is None:
@@ -975,6 +1043,17 @@ class Gen:
                 return
             self.emit(line)
             return
+        if r < 0.045:
+            # p = *p + off: a piece of the Var's own string
+            for _ in range(6):
+                root, steps, v = self.rand_path(deep=0.9)
+                if isinstance(v, tuple) and v[0] == "s":
+                    break
+            else:
+                return
+            L = len(v[1])
+            self.emit("setsub %s %d" % (path_str(root, steps), rng.choice([0, 1, 1, 2, 3, L, max(L - 1, 0), max(L - 7, 0), max(L - 8, 0), rng.randrange(0, L + 1)]) if L else 0))
+            return
         if r < 0.20:
             line = "set %s %s" % (self.target_path(), rlit(rng))
         elif r < 0.25:
@@ -1011,7 +1090,7 @@ class Gen:
         elif r < 0.75:
             root, steps, v = self.rand_path()
             L = len(v.items) if isinstance(v, Arr) else 0
-            line = "remat %s %d %d" % (path_str(root, steps), rng.choice([-1, L]) if rng.random() < 0.05 else rng.randrange(0, L + 1), rng.choice([1, 1, 1, 2, 3, 0, L, -1, L + 1]))
+            line = "remat %s %d %d" % (path_str(root, steps), rng.choice([-1, L]) if rng.random() < 0.05 else rng.randrange(0, L + 1), rng.choice([1, 1, 1, 2, 3, 0, L, -1, L + 1, L + 1, 2 ** 31 - 1, 2 ** 31 - 1, 2 ** 31 - 2, min(2 ** 31 - L, 2 ** 31 - 1), 2 ** 31 - 1 - L, 2 ** 30, -2 ** 31]))
         elif r < 0.79:
             root, steps, v = self.rand_path()
             ks = sorted(v.items) if isinstance(v, Obj) else []
@@ -1316,9 +1395,62 @@ def deep_cases(rng):
     return cases
 
 
+def boundary_cases(rng, tier):
+    """rarely used overloads and boundary arguments (defect hunt): a piece of the Var's own string assigned to it, removeAt counts
+    near INT_MAX, ULong construction / assignment / conversion up to 2^64, string keys applied to arrays, Var(Type) for every type"""
+    cases = []
+    # p = *p + off on both sides of the inline boundary, as a root, an element and a property
+    for n in [1, 2, 6, 7, 8, 9, 15, 16, 17, 33, 100]:
+        s = bytes(rng.choice(b"abcdefghijklmnopqrstuvwxyz0123456789") for _ in range(n))
+        for where in ["0", "1/i1", "2/k6b"]:
+            c = ["reset", "set %s s %s" % (where, hexs(s))]
+            for off in sorted(set([1, 2, n // 2, max(n - 8, 0), max(n - 7, 0), n - 1, n, 0])):
+                c += ["set %s s %s" % (where, hexs(s)), "setsub %s %d" % (where, off), "dump %s" % where, "type %s" % where, "len %s" % where, "tostr %s" % where]
+            c += ["setsub %s 1" % where, "setsub %s 1" % where, "dumpall", "setsub %s %d" % (where, n + 5), "set 3 i 5", "setsub 3 0"]
+            cases.append(c)
+    # removeAt(i, n) with counts up to INT_MAX
+    for L in [1, 2, 3, 4, 7, 13]:
+        c = ["reset"] + ["appl 0 i %d" % i for i in range(L)] + ["copy 1 0", "set 2/k61 t ARRAY"] + ["appl 2/k61 s %s" % hexs(b"element number %d" % i) for i in range(L)]
+        for i in sorted(set([0, 1, L - 1, L])):
+            for n in [2 ** 31 - 1, 2 ** 31 - 1 - i, min(2 ** 31 - i, 2 ** 31 - 1), 2 ** 31 - L, 2 ** 30, L - i + 1, -2 ** 31, -1]:
+                c += ["remat 0 %d %d" % (i, n), "remat 2/k61 %d %d" % (i, n)]
+            c += ["dump 0", "dump 2", "len 0"]
+        c += ["remat 0 0 %d" % L, "remat 2/k61 %d 1" % (L - 1), "dumpall", "drop 0", "dumpall"]
+        cases.append(c)
+    # ULong: constructor, assignment (onto a number, a string, a container), append, conversions
+    qs = [0, 1, 2 ** 31, 2 ** 32 + 5, 2 ** 53 - 1, 2 ** 53, 2 ** 63 - 1024, 2 ** 63, 2 ** 63 + 2048, 9223372036854777856, 3 * 2 ** 62, 2 ** 64 - 2048,
+          2 ** 64 - 1, 2 ** 63 + 1, 2 ** 63 - 1, 2 ** 53 + 1] + [rulong(rng) for _ in range(8 if tier == "quick" else 60)]
+    for j in range(0, len(qs), 4):
+        c = ["reset"]
+        for q in qs[j:j + 4]:
+            c += ["ctor 0 Q %d" % q, "set 1 %s" % rng.choice(["t ARRAY", "s 6162636465666768696a", "i 5", "t NONE", "d 3 1"]), "set 1 Q %d" % q,
+                  "set 2/i1 Q %d" % q, "set 3/k71 Q %d" % q, "appl 4 Q %d" % q, "dump 0", "dump 1", "eq 0 1", "eq 1 2/i1", "eq 0 3/k71", "eq 0 4/i0",
+                  "conv 0", "conv 1", "conv 2/i1", "tostr 0", "tostr 1", "type 1", "is 1 NUMBER"]
+            if int(float(q)) < 2 ** 63:
+                c += ["set 5 d %d 0" % (int(float(q))), "eq 5 1", "eq 1 5", "conv 5"]
+        c += ["set 6 d -1 0", "conv 6", "set 6 d -9223372036854775808 0", "conv 6", "set 6 f 1 0", "conv 6", "set 6 i -7", "conv 6", "set 6 s 2d3432", "conv 6", "dumpall"]
+        cases.append(c)
+    # string keys applied to arrays: existing element, first free, beyond the capacity, non-numeric texts, a second handle
+    for L in [0, 1, 3, 4, 6]:
+        for key in [b"0", b"%d" % max(L - 1, 0), b"%d" % L, b"%d" % (L + 1), b"7", b"13", b"+2", b"007", b"5x", b"name", b"", b"-1", b"-0", b"4294967298"]:
+            c = ["reset", "set 0 t ARRAY"] + ["appl 0 i %d" % (10 + i) for i in range(L)]
+            c += ["set 0/k%s i 5" % hexs(key), "dump 0", "len 0", "set 1/k61 t ARRAY", "set 1/k61/k%s s %s" % (hexs(key), hexs(b"a long string value")),
+                  "dump 1", "type 0/k%s" % hexs(key), "setv 2 0", "set 0/k%s/k62 i 1" % hexs(b"%d" % (L + 9)), "dumpall", "rc 0"]
+            cases.append(c)
+    # Var(Type) / v = Type for every type, read back through every accessor
+    for ty in list(TYPES):
+        c = ["reset", "ctor 0 t %s" % ty, "dump 0", "type 0", "conv 0", "tostr 0", "len 0", "eqlit 0 i 0", "eqlit 0 b 0", "eqlit 0 d 0 0",
+             "set 1 %s" % rng.choice(["t ARRAY", "s 6162636465666768696a", "i 5", "d 7 1"]), "set 1 t %s" % ty, "dump 1", "conv 1", "eq 0 1",
+             "set 2/i2 t %s" % ty, "set 3/k61 t %s" % ty, "appl 4 i 1", "set 4/i0 t %s" % ty, "dumpall", "eq 2/i2 3/k61", "eq 4/i0 0", "conv 2/i2", "conv 3/k61", "tostr 4",
+             "clone 5 2", "eq 5 2", "ctor 6 i 0", "eq 6 0", "ctor 7 b 0", "eq 7 0"]
+        cases.append(c)
+    return cases
+
+
 def gen(rng, tier):
     cases = []
     cases += lit_cases(rng, tier)
+    cases += boundary_cases(rng, tier)
     cases += numeric_eq_cases(rng)
     cases += float_int_cases(rng, tier)
     cases += container_ctor_cases(rng, tier)
@@ -1333,7 +1465,7 @@ def gen(rng, tier):
 
 def nontrivial(case):
     ops = [l.split()[0].lstrip("!") for l in case]
-    return len(case) >= 5 and any(o in ("setv", "app", "ext", "clone", "copy", "set", "appl", "ctor") for o in ops) and \
+    return len(case) >= 5 and any(o in ("setv", "setsub", "app", "ext", "clone", "copy", "set", "appl", "ctor") for o in ops) and \
         any(o in ("dump", "dumpall", "eq", "tostr", "conv") for o in ops)
 
 
@@ -1376,7 +1508,7 @@ def distribution(cases):
                 r = sim.apply(l)
             except Exception:
                 r = "sim-error"
-            if op in ("set", "setv", "app", "appl", "resize", "remat", "rem", "clear", "ext", "clone", "copy", "drop", "ctor"):
+            if op in ("set", "setv", "setsub", "app", "appl", "resize", "remat", "rem", "clear", "ext", "clone", "copy", "drop", "ctor"):
                 outcomes[r] = outcomes.get(r, 0) + 1
         for k, v in sim.stats.items():
             stats[k] = stats.get(k, 0) + v
@@ -1433,7 +1565,12 @@ LEVEL_TEXT = (
     "counted); the invariant holds; "
     "(6) clone_deep_partial: clone() only appends blocks, denotes the same tree, and denotes it in every later heap "
     "that keeps the appended blocks, whatever happens to everything the original reaches; "
-    "(7) var_shared_growth_counterexample / autocreate_invalidates_source_counterexample: without the guards, Var c = a; a << ... leaves "
+    "(7) rarely used overloads and boundary arguments: accessors_ulong / ulong_above_long_range (Var(ULong), v = (ULong)u and (ULong)v up to "
+    "2^64, no detour through Long), ctor_type_zero (Var(Var::INT|NUMBER|FLOAT|BOOL) is zero / false), string_key_on_array_is_index "
+    "(v[\"7\"] on an ARRAY takes exactly the auto-creating step v[7]; covered by history_safe like every other step), "
+    "removeAt_out_of_range_noop (every int pair outside 0 <= i < len, 0 < n <= len - i, n = INT_MAX included, changes nothing), "
+    "assign_suffix_spec (p = *p + off, a const char* into the Var's own string, leaves exactly the suffix); "
+    "(8) var_shared_growth_counterexample / autocreate_invalidates_source_counterexample: without the guards, Var c = a; a << ... leaves "
     "c with a released block, and v[5] = v[0] reads the source through a reference into a block the target path has moved (the two "
     "known findings). "
     "The model is tied to the current source on every run by the correspondence check (real library under ASan/LSan vs compiled model "
@@ -1446,7 +1583,8 @@ LEVEL_NOTE = (
     "reallocate or shift the block the already evaluated source reference points into (v[5] = v[0], v[\"a\"] = v[\"b\"] with a new "
     "key); no small safe repair exists (the reference dangles before operator= runs); (c) no statement makes a container contain itself "
     "(excluded by the property). Domain hypotheses without any library check (OutOfDomain in history_in_domain): const paths exist, "
-    "operands have the required kind, indexes/roots in range. "
+    "operands have the required kind (a string key applied to a scalar is refused: asl_error), indexes/roots in range (a negative index, "
+    "also one written as a string key on an array, is refused). "
     "NOT MODELLED: the heap storage of a STRING (Array<char>: NEW_STRINGC/resize/DEL_STRING/dup) — the model keeps the bytes inline "
     "in the value, never shared; its allocation, in-place reuse, release and leak-freedom are checked only by K under ASan/LSan. "
     "Constructors NOT covered: Var{{\"k\", v}, ..} (initializer_list<Obj>), nested initializer lists, Array<T>/Dic<T> for T other than "
@@ -1460,9 +1598,16 @@ LEVEL_NOTE = (
     "K-only (no theorem): toString/%.15g/%.7g formatting, atoi/atof conversions, int->float rounding, "
     "capacity policy (3, x2, max(2s,m)) and rc values (compared through array().rc()). Doubles are exact dyadic rationals; NaN, "
     "infinities, -0 are outside model and generator. Four defects found while building the check were repaired in /repo "
-    "(193448d, 63d8c00, 02a4aa4, 6c0507b: Var(long)/Var(unsigned long) truncated to 32 bits); witnesses in corpus/C04/fixed.ops."
+    "(193448d, 63d8c00, 02a4aa4, 6c0507b: Var(long)/Var(unsigned long) truncated to 32 bits); witnesses in corpus/C04/fixed.ops. "
+    "Five more, found by an independent defect hunt in input classes the generator had left out (Var(Type) for numeric types had even been "
+    "refused as badarg by the harness), were repaired and are now generated: 0cc196d (v = *v + 3 memcpy overlap), 17b939b "
+    "(removeAt(i, INT_MAX) overflow; Array.h part 0854fc0), c047585 (ULong through Long), 7407dbc (string key on an array without a "
+    "bound), 11663a3 (Var(Var::INT..BOOL) uninitialised); witnesses in corpus/C04/hunt.ops; each pre-fix tree is caught by the quick "
+    "tier at seeds 1-3 (ASan memcpy-param-overlap / UBSan signed-integer-overflow / output divergence / heap-buffer-overflow). "
+    "(double)u for a ULong above 2^53 is modelled by round-to-nearest-even (Dy.ofIntD); only K validates that rounding."
 )
-TRUSTED = ["harness/c04.cpp guards: shared-growth prediction from the public array().rc()/cap()/length(), source-moved prediction from the "
+TRUSTED = ["harness/c04.cpp is compiled with -fsanitize=signed-integer-overflow in addition to the framework's ASan/UBSan set (inline Var.h arithmetic)",
+           "harness/c04.cpp guards: shared-growth prediction from the public array().rc()/cap()/length(), source-moved prediction from the "
            "block address / index / key order of the source reference, cycle prediction by a walk over "
            "array().data()/object().kv().data() block addresses; all are mirrored by the model and by the python simulation"]
 ASSUMPTIONS = [
@@ -1474,5 +1619,7 @@ ASSUMPTIONS = [
     "malloc/realloc succeed; a block that grows is treated as moved (the model never relies on realloc returning the same address)",
     "strcmp on NUL-free byte strings = list equality / unsigned lexicographic order (AslModel.Map.cmpBytes); generated strings and keys are NUL-free",
     "INT payloads stay within the 32-bit range (Var(int) literals are generated in range; long/unsigned long literals outside it become NUMBER)",
+    "(double)x for a ULong above 2^53 rounds to nearest, ties to even (AslModel.Var.Dy.ofIntD); (ULong)d / (Long)d are compared only "
+    "while the truncated value fits the target type (the cast is undefined beyond)",
     "long is 64 bits (LP64): Var(long)/Var(unsigned long) literals up to 2^53 are exact as double",
 ]
